@@ -43,6 +43,9 @@ def gen_cases(tier, rng):
         for st in ("-", "RawData(Rcdata)", "RawData(Rawtext)", "Plaintext", "AttributeValue(DoubleQuoted)", "AttributeValue(Unquoted)"):
             base.append(tc.case([s], state=st))
     base += tc.random_soup(rng, 600 if tier == "quick" else 30000)
+    crlf = tc.crlf_run_cover()
+    base += crlf
+    crlf_set = set(crlf)
     cases = []
     for line in base:
         f = tc.fields(line)
@@ -50,7 +53,9 @@ def gen_cases(tier, rng):
         chunkings = [[s]]
         if s:
             chunkings.append(tc.singletons(s))
-            if len(s) > 1:
+            if line in crlf_set:
+                chunkings += tc.partitions2(s)[1:-1]
+            elif len(s) > 1:
                 chunkings.append([s[:len(s) // 2], s[len(s) // 2:]])
         for ch in chunkings:
             l0 = tc.with_chunks(line, ch)
